@@ -181,7 +181,7 @@ class Sim:
         ev = []
         started = [s != "new" for s in self.state]
         for i, s in enumerate(self.state):
-            if s == "new" and not self.closed:
+            if s == "new":  # (also after the connector was closed: a retry of an in-flight request does just that)
                 # symmetry: identical tasks (same host) start in index order
                 if all(started[j] for j in range(i) if self.cfg["hosts"][j] == self.cfg["hosts"][i]):
                     ev.append(("start", i))
